@@ -4,7 +4,7 @@ from concurrent.futures import ThreadPoolExecutor
 from .. import common, corpus, gen_table as G
 
 THEOREMS = ["Lou.C12.arena_alloc_inv", "Lou.C12.arena_objects_disjoint", "Lou.C12.index_get_sound",
-            "Lou.C12.checkImage_sound", "Lou.C12.checkTable_sound", "Lou.C12.checkTable_defsFound", "Lou.C12.lookup_complete",
+            "Lou.C12.checkImage_sound", "Lou.C12.slot_opcode", "Lou.C12.checkTable_sound", "Lou.C12.checkTable_defsFound", "Lou.C12.lookup_complete",
             "Lou.C12.lookup_complete_char", "Lou.C12.fwd_chain_pairwise", "Lou.C12.fwd_buckets_disjoint",
             "Lou.C12.compileEntry_invF", "Lou.C12.compile_consistent", "Lou.C12.compile_consistent_unfinalised",
             "Lou.C12.compile_defsFound", "Lou.C12.compile_defsFound_unfinalised",
